@@ -4,6 +4,7 @@ import (
 	"bytes"
 	"encoding/json"
 	"fmt"
+	"reflect"
 	"regexp"
 	"strconv"
 	"strings"
@@ -160,7 +161,29 @@ type c06Op struct {
 	model func(m map[string]interface{}) // expectation on the generic form (nil: not modelled)
 }
 
+var c06OpsMemo = map[string][]c06Op{}
+var c06Skipped = map[string][]string{}
+
+// c06Ops: the hand-modelled calls of a subject followed by every other fluent method found by reflection.
 func c06Ops(subject string) []c06Op {
+	if o, ok := c06OpsMemo[subject]; ok {
+		return o
+	}
+	ops := c06ModelledOps(subject)
+	modelled := map[string]bool{}
+	for _, o := range ops {
+		if i := strings.Index(o.name, "("); i > 0 {
+			modelled[o.name[:i]] = true
+		}
+	}
+	more, skipped := c06ReflectOps(subject, modelled)
+	c06Skipped[subject] = skipped
+	ops = append(ops, more...)
+	c06OpsMemo[subject] = ops
+	return ops
+}
+
+func c06ModelledOps(subject string) []c06Op {
 	small := func(i int) spec.Schema {
 		var s spec.Schema
 		switch i {
@@ -406,6 +429,49 @@ func c06NewSubject(subject string) interface{} {
 		return new(spec.Header)
 	case "items":
 		return new(spec.Items)
+	// values made by the constructors of the builder API
+	case "tag":
+		t := spec.NewTag("n", "d", nil)
+		return &t
+	case "xml":
+		return new(spec.XMLObject)
+	case "security-oauth2":
+		return spec.OAuth2AccessToken("http://a", "http://t")
+	case "security-apikey":
+		return spec.APIKeyAuth("k", "header")
+	case "param-query":
+		return spec.QueryParam("q")
+	case "param-header":
+		return spec.HeaderParam("h")
+	case "param-path":
+		return spec.PathParam("p")
+	case "param-form":
+		return spec.FormDataParam("f")
+	case "param-file":
+		return spec.FileParam("f")
+	case "param-body":
+		s := spec.Schema{}
+		return spec.BodyParam("b", &s)
+	case "param-array":
+		return spec.SimpleArrayParam("a", "string", "csv")
+	case "param-ref":
+		return spec.ParamRef("#/parameters/a")
+	case "response-ref":
+		return spec.ResponseRef("#/responses/a")
+	case "header-new":
+		return spec.ResponseHeader()
+	case "schema-string":
+		return spec.StringProperty()
+	case "schema-array":
+		return spec.ArrayProperty(spec.Int64Property())
+	case "schema-map":
+		return spec.MapProperty(spec.DateTimeProperty())
+	case "schema-ref":
+		return spec.RefSchema("#/definitions/a")
+	case "schema-composed":
+		return spec.ComposedSchema(*spec.BoolProperty(), *spec.RefProperty("#/definitions/a"), *spec.Float64Property())
+	case "schema-strfmt":
+		return spec.StrFmtProperty("uuid")
 	}
 	panic(subject)
 }
@@ -660,14 +726,22 @@ func c06Run(c *Ctx) {
 		depth = 3
 	}
 	c.Bound("builder_history_length", fmt.Sprint(depth))
-	for _, subject := range []string{"schema", "response", "operation", "parameter", "header", "items"} {
+	for _, subject := range []string{"schema", "response", "operation", "parameter", "header", "items",
+		"tag", "xml", "security-oauth2", "security-apikey", "param-query", "param-header", "param-path", "param-form", "param-file", "param-body", "param-array", "param-ref",
+		"response-ref", "header-new", "schema-string", "schema-array", "schema-map", "schema-ref", "schema-composed", "schema-strfmt"} {
 		ops := c06Ops(subject)
+		if len(c06Skipped[subject]) > 0 {
+			c.Note("builder methods of " + subject + " not driven (argument type without a value pool): " + strings.Join(c06Skipped[subject], ","))
+		}
 		seen := map[string]bool{}
 		frontier := [][]string{{}}
 		for l := 1; l <= depth; l++ {
 			var next [][]string
 			for _, h := range frontier {
 				for _, o := range ops {
+					if l >= 3 && strings.HasPrefix(o.name, "~") {
+						continue // the third call is taken from the modelled calls only
+					}
 					hist := append(append([]string{}, h...), o.name)
 					// canonical state key: the value's own encoding (or the history when it does not encode)
 					v := c06NewSubject(subject)
@@ -706,7 +780,7 @@ func c06Run(c *Ctx) {
 func init() {
 	register(&CheckDef{
 		ID: "C06", Build: "instr", Run: c06Run, RunCase: c06RunCase,
-		Rule: "states = (A) C01 documents (cost <= bound, every route) decoded into their type, (B) every assignment of 14 x-order values (integers, negative ones, numeric strings, non-integers, booleans, null, objects and arrays) to 2 and 3 properties, (C) every distinct value reachable by <= bound calls of the builder API of Schema/Response/Operation/Parameter/Header/Items with hostile names (breadth-first, de-duplicated on the encoding); each value is encoded under every explored map iteration order (deviation bound 2); oracles: error or valid JSON, no repeated member, byte-identical across orders, equals the reference model of the builder calls, properties ordered by (x-order, name)",
+		Rule: "states = (A) C01 documents (cost <= bound, every route) decoded into their type, (B) every assignment of 14 x-order values (integers, negative ones, numeric strings, non-integers, booleans, null, objects and arrays) to 2 and 3 properties, (C) every distinct value reachable by <= bound calls of the builder API (breadth-first, de-duplicated on the encoding): hand-modelled calls with hostile names on Schema/Response/Operation/Parameter/Header/Items, and every other fluent method of those types and of the values made by 20 constructors (NewTag, OAuth2AccessToken, QueryParam ... ComposedSchema), found by reflection and called with a few argument vectors per parameter type; each value is encoded under every explored map iteration order (deviation bound 2); oracles: error or valid JSON, no repeated member, byte-identical across orders, equals the reference model of the builder calls, properties ordered by (x-order, name)",
 		Assumptions: []string{
 			"map iteration inside package spec is owned through the rewritten range statements; encoding/json itself sorts map keys",
 			"x-order reference: an integer, a string holding an integer or a number truncated to an integer orders the property; anything else counts as no x-order; ties are ordered by name",
@@ -714,4 +788,126 @@ func init() {
 		},
 		MinOutcomes: 2,
 	})
+}
+
+// ---- every fluent method of the builder API, found by reflection (oracles without a reference model:
+// validity, no repeated member, determinism across map orders, direct MarshalJSON contract)
+
+var c06Pools = map[reflect.Type][]interface{}{}
+
+func c06Pool(t reflect.Type) []interface{} {
+	if p, ok := c06Pools[t]; ok {
+		return p
+	}
+	tricky := `a"b\c` + "\n<&> é😀"
+	small := spec.Schema{}
+	small.Title = "p"
+	ordered := spec.Schema{}
+	ordered.AddExtension("x-order", 1)
+	var p []interface{}
+	switch t {
+	case reflect.TypeOf(""):
+		p = []interface{}{"s", tricky, ""}
+	case reflect.TypeOf(true):
+		p = []interface{}{true, false}
+	case reflect.TypeOf(float64(0)):
+		p = []interface{}{0.0, 1.5}
+	case reflect.TypeOf(int64(0)):
+		p = []interface{}{int64(0), int64(7)}
+	case reflect.TypeOf(int(0)):
+		p = []interface{}{200, 0}
+	case reflect.TypeOf([]string{}):
+		p = []interface{}{[]string{"a"}, []string{tricky, "a", "a"}, []string{}}
+	case reflect.TypeOf([]interface{}{}):
+		p = []interface{}{[]interface{}{"v"}, []interface{}{1.0, nil, map[string]interface{}{"a": []interface{}{}}}}
+	case reflect.TypeOf((*interface{})(nil)).Elem():
+		p = []interface{}{"v", 1.0, map[string]interface{}{tricky: []interface{}{}}, nil}
+	case reflect.TypeOf(spec.Schema{}):
+		p = []interface{}{small, ordered, spec.Schema{}}
+	case reflect.TypeOf(&spec.Schema{}):
+		p = []interface{}{&small, (*spec.Schema)(nil)}
+	case reflect.TypeOf([]spec.Schema{}):
+		p = []interface{}{[]spec.Schema{small, ordered}, []spec.Schema{}}
+	case reflect.TypeOf(map[string]spec.Schema{}):
+		p = []interface{}{map[string]spec.Schema{"b": ordered, tricky: small, "a": ordered}}
+	case reflect.TypeOf(&spec.Items{}):
+		p = []interface{}{spec.NewItems().Typed("string", ""), (*spec.Items)(nil)}
+	case reflect.TypeOf(&spec.Response{}):
+		p = []interface{}{spec.NewResponse().WithDescription(tricky), (*spec.Response)(nil)}
+	case reflect.TypeOf(&spec.Parameter{}):
+		p = []interface{}{spec.QueryParam(tricky).Typed("string", ""), spec.BodyParam("b", &small)}
+	case reflect.TypeOf(&spec.Header{}):
+		p = []interface{}{new(spec.Header).Typed("string", "")}
+	case reflect.TypeOf(spec.Header{}):
+		p = []interface{}{*new(spec.Header).Typed("string", "")}
+	case reflect.TypeOf(spec.Ref{}):
+		p = []interface{}{spec.MustCreateRef("#/definitions/a"), spec.MustCreateRef("other.json#/a%20b")}
+	}
+	c06Pools[t] = p
+	return p
+}
+
+var c06SkipMethods = map[string]bool{"UnmarshalJSON": true, "GobDecode": true, "SetValidations": true, "Validate": true}
+
+// c06ReflectOps: one op per fluent method (result = receiver, or no result) x a few argument vectors.
+func c06ReflectOps(subject string, modelled map[string]bool) (ops []c06Op, skipped []string) {
+	rt := reflect.TypeOf(c06NewSubject(subject))
+	for i := 0; i < rt.NumMethod(); i++ {
+		m := rt.Method(i)
+		if c06SkipMethods[m.Name] || modelled[m.Name] {
+			continue
+		}
+		mt := m.Type
+		if mt.NumOut() > 1 || (mt.NumOut() == 1 && mt.Out(0) != rt) {
+			continue // a query, not a builder
+		}
+		pools := [][]interface{}{}
+		ok := true
+		width := 1
+		for a := 1; a < mt.NumIn(); a++ {
+			at := mt.In(a)
+			p := c06Pool(at)
+			if len(p) == 0 {
+				ok = false
+				break
+			}
+			pools = append(pools, p)
+			if len(p) > width {
+				width = len(p)
+			}
+		}
+		if !ok {
+			skipped = append(skipped, m.Name)
+			continue
+		}
+		if len(pools) == 0 {
+			width = 1
+		}
+		for k := 0; k < width && k < 4; k++ {
+			k := k
+			args := make([]reflect.Value, len(pools))
+			var shown []string
+			for a, p := range pools {
+				v := p[k%len(p)]
+				if v == nil {
+					args[a] = reflect.Zero(mt.In(a + 1))
+				} else {
+					args[a] = reflect.ValueOf(v)
+				}
+				shown = append(shown, fmt.Sprintf("#%d", k%len(p)))
+			}
+			name := "~" + m.Name + "(" + strings.Join(shown, ",") + ")"
+			idx := m.Index
+			variadic := mt.IsVariadic()
+			ops = append(ops, c06Op{name: name, apply: func(v interface{}) {
+				f := reflect.ValueOf(v).Method(idx)
+				if variadic {
+					f.CallSlice(args)
+				} else {
+					f.Call(args)
+				}
+			}})
+		}
+	}
+	return
 }
